@@ -250,7 +250,7 @@ def _isolated(modname: str, shards: list, ctx: Ctx, total: ShardResult, errors: 
     for i, sh in enumerate(shards):
         jf, of = tmp / f"job{i}.json", tmp / f"out{i}.json"
         jf.write_text(json.dumps({"modname": modname, "shard": sh, "ctx": ctx.__dict__,
-                                  "num_threads": int(os.environ.get("NUMBA_NUM_THREADS", "1") or 1)}, default=_json_default))
+                                  "num_threads": (int(os.environ["NUMBA_NUM_THREADS"]) if os.environ.get("NUMBA_NUM_THREADS") else None)}, default=_json_default))
         jobs.append((sh, jf, of))
     running: list = []
     pending = list(jobs)
@@ -308,7 +308,7 @@ def run_case_isolated(modname: str, shard: Any, only: Any, ctx: Ctx) -> tuple[st
     tmp = Path(tempfile.mkdtemp(prefix="case-", dir=ctx.scratch))
     jf, of = tmp / "job.json", tmp / "out.json"
     jf.write_text(json.dumps({"modname": modname, "shard": shard, "only": only, "ctx": ctx.__dict__,
-                              "num_threads": int(os.environ.get("NUMBA_NUM_THREADS", "1") or 1)}, default=_json_default))
+                              "num_threads": (int(os.environ["NUMBA_NUM_THREADS"]) if os.environ.get("NUMBA_NUM_THREADS") else None)}, default=_json_default))
     try:
         p = subprocess.run([sys.executable, "-m", "vf.worker", str(jf), str(of)], cwd=str(VERIF_DIR), capture_output=True, text=True, timeout=ISOLATED_SHARD_TIMEOUT)
     except subprocess.TimeoutExpired:
